@@ -135,9 +135,16 @@ Print Assumptions C11_not_wedged_linear_batch.
    shorter chain with stale index entries between it and p (the old chain is
    re-extended after a switch to a shorter fork), or several blocks below p on the
    same chain (reorg with an empty old chain) - and the rest of the batch extends
-   b1 linearly.  Side conditions: no index entries above p; reorg, if it is
-   needed, finds the fork point; InsertChain's version-state check finds a
-   canonical header one below the batch.  Killed after ANY database write of the
+   b1 linearly.  Stale index entries at or below p's height - in particular between
+   a lowered head and p, the case "head moved down, old branch re-adopted above it"
+   (C11_nonvacuous_reorganising_batch is exactly [A1 A2 A3], switch down to B2, then
+   [A4 A5]) - are allowed: stageHead overwrites every height of the new chain.
+   Side conditions: no index entries above p - the index is filled bottom-up and
+   the import paths never delete from it, so this says that b1's own height is
+   free, i.e. b1 is dispatched to the top-level import; the complement (b1's height
+   occupied: ErrExistCanonical at index 0) goes through insertSidechain and is not
+   covered by this theorem; reorg, if it is needed, finds the fork point;
+   InsertChain's version-state check finds a canonical header one below the batch.  Killed after ANY database write of the
    import (b1's block batch, state commit or the one batch that re-organises the
    chain, or any write of the later blocks), the restart succeeds and offering the
    batch again leaves the node with EXACTLY the database and head of the node that
